@@ -297,6 +297,11 @@ def closed_stop(r):
     fn_ = enclosing_func(r)
     pos = [norm(_tr(fn_, v_) if isinstance(fn_, ast.FunctionDef) else v_) for t_, b_ in guards(r) if b_ for v_ in flatten_boolop(t_, ast.And)]
     neg = [t_ for t_, b_ in guards(r) if not b_]
+    # a guard clause `if not self._closed: ...; raise` before it says the same thing as an enclosing `if self._closed:`
+    for t_ in list(neg):
+        if isinstance(t_, ast.UnaryOp) and isinstance(t_.op, ast.Not) and norm(t_.operand) == "self._closed":
+            pos.append("self._closed")
+            neg.remove(t_)
     if "self._closed" not in pos or neg:
         return False
     others = [x for x in pos if x != "self._closed"]
